@@ -94,14 +94,37 @@ Theorem C16_minus_zero_iff : forall t off neg x, from_numeric_offset t off neg =
 Proof. exact minus_zero_iff. Qed.
 Print Assumptions C16_minus_zero_iff.
 
-(* Recorded offset bytes are kept verbatim, whatever they are, in the object
-   and in the date part of commit/tag manifests (format_author_data). *)
-Theorem C16_offset_verbatim : forall t ob x,
-  from_dict (TRDictNew t (Some ob)) = Ok x ->
+(* Recorded offset bytes are kept verbatim, whatever they are and whatever
+   else the dict carries (legacy "offset" / "negative_utc" included), in the
+   object and in the date part of commit/tag manifests (format_author_data). *)
+Theorem C16_offset_verbatim : forall t ob offset neg x,
+  from_dict (TRDict t (Some (Some ob)) offset neg) = Ok x ->
   offset_bytes x = ob /\ timestamp_of_repr t = Ok (ts x) /\
   author_date_part x = [SP] ++ format_date (ts x) ++ [SP] ++ ob.
 Proof. exact offset_verbatim. Qed.
 Print Assumptions C16_offset_verbatim.
+
+(* Dicts of the transitional serialisation carry BOTH forms.  The recorded
+   bytes win: the outcome is the same as without the legacy keys; it succeeds
+   whenever the timestamp is acceptable (no assert on a disagreeing number);
+   the bytes are kept even when they are not the +HHMM spelling the number
+   would get (ob versus offset_to_bytes off neg); the numeric form goes
+   through the +HHMM/-HHMM rule only when no bytes are recorded. *)
+Theorem C16_recorded_bytes_win :
+  (forall t ob offset neg,
+     from_dict (TRDict t (Some (Some ob)) offset neg) = from_dict (TRDict t (Some (Some ob)) None None)) /\
+  (forall t ob offset neg t', timestamp_of_repr t = Ok t' ->
+     from_dict (TRDict t (Some (Some ob)) offset neg) = Ok (mkTstz t' ob)) /\
+  (forall t ob off neg x y,
+     from_dict (TRDict t (Some (Some ob)) (Some (Some off)) neg) = Ok x ->
+     from_dict (TRDict t None (Some (Some off)) neg) = Ok y ->
+     offset_bytes x = ob /\ offset_bytes y = offset_to_bytes off (match neg with Some b => b | None => false end) /\
+     ts x = ts y) /\
+  (forall t off neg,
+     from_dict (TRDict t None (Some (Some off)) neg) =
+     bind (timestamp_of_repr t) (fun t' => from_numeric_offset t' off (match neg with Some b => b | None => false end))).
+Proof. exact recorded_bytes_win. Qed.
+Print Assumptions C16_recorded_bytes_win.
 
 (* The date text: for every seconds value and 0 <= us < 10^6 an independent
    decoder reads (s, us) back; the text is the decimal of s when us = 0, else
